@@ -406,3 +406,26 @@ Theorem closure_step_safe : forall ml gf Phi, stable Phi ->
   end.
 Proof. exact RunLoopFacts.closure_step_safe_lemma. Qed.
 Print Assumptions closure_step_safe.
+
+(* 12. The assembly (VMX/RunAssemble.v): the step lemmas of items 10-11 along the dispatch loop
+       (invariant: the caller's frames at the bottom, good Lua frames above) and by induction on the
+       fuel. THE RUN-LEVEL THEOREM for the machine with coroutine resumption cut off: a run of a
+       prototype tree accepted by wf_proto (chunk_ok: + NumUpvalues >= 0, 0 for the chunk) never
+       indexes Code / Constants / FunctionPrototypes / upvalue slots out of range, with any fuel -
+       and so does every run of the FULL VM model that the cut machine does not cut off (no
+       coroutine resumed, fuel not exhausted). The statement for runs that do resume coroutines
+       (RunSafe.wf_run_noob_statement) remains a Definition. *)
+From GL Require VMX.RunAssemble.
+
+Theorem mainLoop_nc_safe : forall n, ml_safe (mainLoop_nc n).
+Proof. exact RunAssemble.mainLoop_nc_safe_lemma. Qed.
+Print Assumptions mainLoop_nc_safe.
+
+Theorem wf_run_noob_nc : forall p, chunk_ok p -> forall fuel, fin_noob (run_proto_nc fuel p).
+Proof. exact RunAssemble.wf_run_noob_nc_lemma. Qed.
+Print Assumptions wf_run_noob_nc.
+
+Theorem wf_run_noob_uncut : forall p, chunk_ok p -> forall fuel,
+  run_proto_nc fuel p <> VFinFuel -> fin_noob (run_proto fuel p).
+Proof. exact RunAssemble.wf_run_noob_uncut_lemma. Qed.
+Print Assumptions wf_run_noob_uncut.
